@@ -4,7 +4,7 @@
 From Coq Require Import Permutation.
 From Verif Require Import Base.Lex Region.Model Region.Ord Region.ProofsContains Region.ProofsGroup Region.ProofsInsert
   Region.ProofsMerge Region.ProofsGap Region.ProofsPhase1 Region.ProofsPhase2
-  Region.Converge Region.ProofsConvA Region.ProofsConvB Region.ProofsConvC Region.PdCodec Region.ProofsBucket Region.Peers Region.ProofsBudget Region.ProofsLatest Region.ProofsApi Region.ProofsGc.
+  Region.Converge Region.ProofsConvA Region.ProofsConvB Region.ProofsConvC Region.PdCodec Region.ProofsBucket Region.Peers Region.ProofsBudget Region.ProofsLatest Region.ProofsApi Region.ProofsGc Region.InvCheck.
 Open Scope N_scope.
 
 (* ---- containment ---- *)
@@ -262,6 +262,21 @@ Theorem C09_converges_inv_insert : forall truth c r T,
 Proof. intros truth c r T H. exact (insert_truth truth H c r T). Qed.
 Print Assumptions C09_converges_inv_insert.
 
+(* the hypotheses of the convergence theorems as executable tests (extracted; the replay evaluates [cinvb] on the
+   implementation's cache after every operation and [truth_wfb] on the ground truth at every quiescent point) *)
+Theorem C09_inv_check_sound : forall truth c,
+  (truth_wfb truth = true -> truth_wf truth) /\ (cinvb truth c = true -> cinv truth c).
+Proof. intros truth c. exact (conj (truth_wfb_sound truth) (cinvb_sound truth c)). Qed.
+Print Assumptions C09_inv_check_sound.
+Theorem C09_converges_checked : forall truth cur_of pd budget fuel k c,
+  truth_wfb truth = true -> cinvb truth c = true ->
+  (forall R, In R truth -> In R (cur_of R) /\ forall d, In d (cur_of R) -> In d truth) ->
+  (forall t k T, In T truth -> tcontains T k = true -> pd t (ReqGet k) = PdOne (Some T)) ->
+  (0 < budget)%nat -> (0 < fuel)%nat ->
+  rounds truth cur_of pd budget fuel 4 c k = true.
+Proof. exact converges_checked. Qed.
+Print Assumptions C09_converges_checked.
+
 (* ---- the situations without convergence (leader store down, leaderless region, PD stale or silent) ---- *)
 (* whatever PD answers — nothing, gaps, leaderless regions, stale descriptions — a lookup consults PD at most [budget]
    times (every retry of loadRegion / scanRegions / batchScanRegions is preceded by a back-off that is charged to the
@@ -493,4 +508,13 @@ Proof. vm_compute. repeat split. Qed.
 Example C09_gc_nonvacuous :
   let c := gc (upd_entry cv_cache cv_stale expire_r) in
   c_sorted c = [] /\ c_latest c = [] /\ rounds cv_truth (fun _ => cv_truth) cv_pd 3 3 1 c [99] = true.
+Proof. vm_compute. repeat split. Qed.
+
+(* the executable tests accept the example states and reject a cache that is ahead of the ground truth / an entry whose
+   by-version record is missing / a ground truth with a hole *)
+Example C09_inv_check_nonvacuous :
+  truth_wfb cv_truth = true /\ cinvb cv_truth cv_cache = true /\ cinvb cv_truth cv_cache_failed = true /\ cinvb cv_truth empty_cache = true /\
+  cinvb cv_truth (mkCache [mkRegion 1 [] [] 3 1 [(1, 1); (2, 2)] 0 false 0 false false false [0; 0] None] [((1, 3, 1), [])] [(1, (3, 1))] [] []) = false /\
+  cinvb cv_truth (mkCache [cv_stale] [] [(1, (1, 1))] [] []) = false /\
+  truth_wfb [cv_R1] = false /\ truth_wfb [cv_R2] = false.
 Proof. vm_compute. repeat split. Qed.
